@@ -113,49 +113,7 @@ func c01Dispatch(p *Prog, r *Report, e *engine) {
 	})
 	r.Check(okPath, "D1-dispatch", re.key+":input-path", p.Pos(e.extractCall.Pos()), "ScanInput.Path = path", "ScanInput.Path is not the path of the file being dispatched")
 	r.Check(okReader, "D1-dispatch", re.key+":input-reader", p.Pos(e.extractCall.Pos()), "ScanInput.Reader = Open(path)", "ScanInput.Reader is not the result of opening the path being dispatched")
-	// D1-fileapi: stores currentPath=path and currentStatCalled=false dominate the FileRequired call
-	for _, f := range []string{"currentPath", "currentStatCalled"} {
-		var store *ssa.Store
-		forEachInstr(hf.fn, func(_ *ssa.BasicBlock, _ int, in ssa.Instruction) {
-			if storesField("lazyFileAPI", f)(in) {
-				store = in.(*ssa.Store)
-			}
-		})
-		site := hf.key + ":" + f
-		if store == nil {
-			r.Fail("D1-fileapi", site, p.Pos(frc.Pos()), "the lazy file API's "+f+" is not set before FileRequired is asked: extractors would see the previous file's "+map[string]string{"currentPath": "path", "currentStatCalled": "cached stat result"}[f])
-			continue
-		}
-		good := true
-		if f == "currentPath" && store.Val != hf.fn.Params[1] {
-			good = false
-		}
-		if f == "currentStatCalled" {
-			if b, ok := constBool(store.Val); !ok || b {
-				good = false
-			}
-		}
-		// must pass through the store on every path entry -> FileRequired
-		w := findPath(entryPoint(hf.fn), instrIs(frc), instrIs(store), nil)
-		r.Check(good && w == nil, "D1-fileapi", site, p.Pos(store.Pos()), "set on every path to FileRequired", "FileRequired can be asked on a path where the lazy file API's "+f+" was not (correctly) reset for the current file")
-	}
-	// lazyFileAPI.Stat: on the first call both cached fields are assigned from fs.Stat of the current path
-	ls := newFA(p, r, e.lazyStat)
-	var statCall *ssa.Call
-	forEachInstr(ls.fn, func(_ *ssa.BasicBlock, _ int, in ssa.Instruction) {
-		if c, ok := in.(*ssa.Call); ok && refOf(c.Common()).is("io/fs", "", "Stat") {
-			statCall = c
-		}
-	})
-	if statCall == nil {
-		r.Undecided("D1-fileapi", ls.key+":stat", "-", "no fs.Stat call in lazyFileAPI.Stat")
-	} else {
-		for _, f := range []string{"currentFileInfo", "currentStatErr"} {
-			ls.noPath("D1-fileapi", "stores-"+f, pointOf(statCall), isReturn, storesField("lazyFileAPI", f), nil,
-				"assigned on every path after fs.Stat", "after a fresh fs.Stat the cached "+f+" may keep the value of a previous file")
-		}
-		r.Check(loadsField(statCall.Call.Args[1], "lazyFileAPI", "currentPath"), "D1-fileapi", ls.key+":stat-path", p.Pos(statCall.Pos()), "stats currentPath", "lazyFileAPI.Stat does not stat the current path")
-	}
+	checkFileAPI(p, r, e, "D1-fileapi")
 
 	// D2: dispatch call not in an inner loop of runExtractor; one dispatch per iteration
 	r.Check(!inLoop(e.extractCall.Block()), "D2-once", re.key+":extract-not-in-loop", p.Pos(e.extractCall.Pos()), "Extract call is not inside a loop", "Extract is invoked inside a loop of the dispatch function: a file can be extracted more than once")
@@ -901,4 +859,100 @@ func c01SkipTable(p *Prog, r *Report) {
 		}
 	}
 	r.OK("D4-decision-table", site, p.Pos(fn.Pos()), fmt.Sprintf("equals the disjunction of the five skip rules on all %d combinations of its %d tests", len(table), len(atoms)))
+}
+
+// checkFileAPI: before FileRequired is asked about a file, the shared lazy file API is pointed at
+// that file's path and its stat cache is invalidated — unconditionally, on every path (the object is
+// reused for every file of every scan root, and paths are root-relative); a fresh fs.Stat overwrites
+// both cached results.
+func checkFileAPI(p *Prog, r *Report, e *engine, rule string) {
+	hf := newFA(p, r, e.handleFile)
+	frc := e.fileRequiredCall()
+	if frc == nil {
+		r.Undecided(rule, hf.key+":FileRequired", "-", "FileRequired call not found")
+		return
+	}
+	// D1-fileapi: stores currentPath=path and currentStatCalled=false dominate the FileRequired call
+	for _, f := range []string{"currentPath", "currentStatCalled"} {
+		var store *ssa.Store
+		forEachInstr(hf.fn, func(_ *ssa.BasicBlock, _ int, in ssa.Instruction) {
+			if storesField("lazyFileAPI", f)(in) {
+				store = in.(*ssa.Store)
+			}
+		})
+		site := hf.key + ":" + f
+		if store == nil {
+			// the reset may live in a helper called from the callback: the helper must store on every
+			// one of its paths, and the call must be passed on every path to FileRequired
+			var helperCall ssa.Instruction
+			okHelper := false
+			forEachInstr(hf.fn, func(_ *ssa.BasicBlock, _ int, in ssa.Instruction) {
+				c := callOf(in)
+				if c == nil || c.StaticCallee() == nil || len(c.StaticCallee().Blocks) == 0 || !p.firstParty(c.StaticCallee()) {
+					return
+				}
+				cal := c.StaticCallee()
+				var hs *ssa.Store
+				forEachInstr(cal, func(_ *ssa.BasicBlock, _ int, in2 ssa.Instruction) {
+					if storesField("lazyFileAPI", f)(in2) {
+						hs = in2.(*ssa.Store)
+					}
+				})
+				if hs == nil {
+					return
+				}
+				helperCall = in
+				good := true
+				if f == "currentStatCalled" {
+					if b, ok := constBool(hs.Val); !ok || b {
+						good = false
+					}
+				}
+				if f == "currentPath" {
+					if prm, ok := hs.Val.(*ssa.Parameter); !ok || prm.Parent() != cal {
+						good = false
+					}
+				}
+				if good && findPath(entryPoint(cal), isReturn, instrIs(hs), nil) == nil {
+					okHelper = true
+				}
+			})
+			if helperCall != nil && okHelper && findPath(entryPoint(hf.fn), instrIs(frc), instrIs(helperCall), nil) == nil {
+				r.OK(rule, site, p.Pos(helperCall.Pos()), "reset through a helper that stores on every path")
+				continue
+			}
+			r.Fail(rule, site, p.Pos(frc.Pos()), "the lazy file API's "+f+" is not (unconditionally) set before FileRequired is asked: extractors would see the previous file's "+map[string]string{"currentPath": "path", "currentStatCalled": "cached stat result"}[f]+" — the object is shared by all files of all scan roots, whose paths are root-relative")
+			continue
+		}
+		good := true
+		if f == "currentPath" && store.Val != hf.fn.Params[1] {
+			good = false
+		}
+		if f == "currentStatCalled" {
+			if b, ok := constBool(store.Val); !ok || b {
+				good = false
+			}
+		}
+		// must pass through the store on every path entry -> FileRequired
+		w := findPath(entryPoint(hf.fn), instrIs(frc), instrIs(store), nil)
+		r.Check(good && w == nil, rule, site, p.Pos(store.Pos()), "set on every path to FileRequired", "FileRequired can be asked on a path where the lazy file API's "+f+" was not (correctly) reset for the current file")
+	}
+	// lazyFileAPI.Stat: on the first call both cached fields are assigned from fs.Stat of the current path
+	ls := newFA(p, r, e.lazyStat)
+	var statCall *ssa.Call
+	forEachInstr(ls.fn, func(_ *ssa.BasicBlock, _ int, in ssa.Instruction) {
+		if c, ok := in.(*ssa.Call); ok && refOf(c.Common()).is("io/fs", "", "Stat") {
+			statCall = c
+		}
+	})
+	if statCall == nil {
+		r.Undecided(rule, ls.key+":stat", "-", "no fs.Stat call in lazyFileAPI.Stat")
+	} else {
+		for _, f := range []string{"currentFileInfo", "currentStatErr"} {
+			ls.noPath(rule, "stores-"+f, pointOf(statCall), isReturn, storesField("lazyFileAPI", f), nil,
+				"assigned on every path after fs.Stat", "after a fresh fs.Stat the cached "+f+" may keep the value of a previous file")
+		}
+		r.Check(loadsField(statCall.Call.Args[1], "lazyFileAPI", "currentPath"), rule, ls.key+":stat-path", p.Pos(statCall.Pos()), "stats currentPath", "lazyFileAPI.Stat does not stat the current path")
+	}
+
 }
